@@ -71,6 +71,22 @@ def run(out):
             c = [] if first is None else canon.msg_ints(first)
             if a != b or (b[0] > 0 and c != canon.msg_ints(mido.parser.parse_all(s)[0])) or (b[0] == 0 and first is not None):
                 out.failures.append(('ctor', 'Parser(data)/parse(data) differ from parse_all on %r' % (s,), {'component': 'ctor', 'case': s}))
+            # the constructor's data is fed like any other: Parser(head) followed by feed(tail) / feed_byte, for every cut
+            for cut in range(len(s) + 1):
+                for form in (list, bytes, bytearray, tuple):
+                    p1 = mido.Parser(form(s[:cut]))
+                    early = list(p1) if cut % 2 else []
+                    if cut % 3:
+                        p1.feed(form(s[cut:]))
+                    else:
+                        for x in s[cut:]:
+                            p1.feed_byte(x)
+                    got = pc.msgs_out(early + list(p1))
+                    n += 1
+                    if got != b:
+                        out.failures.append(('ctor-then-feed', 'Parser(%s(%r)) then feeding %r gives %r, the whole stream parses to %r' % (form.__name__, s[:cut], s[cut:], got, b),
+                                             {'component': 'ctor', 'case': s, 'cut': cut}))
+                        break
         except Exception as e:  # noqa: BLE001
             out.failures.append(('ctor-raises', 'Parser(%r) raised %r' % (s, e), {'component': 'ctor', 'case': s}))
     out.evaluations += n
